@@ -125,6 +125,12 @@ func ewValues(c *core.Ctx, t reflect.Type, n int, class string, which int) []int
 		return out
 	case "eqmix": // small range: many equal pairs
 		return gen.SmallInts(t, n, c.Rng, 1, 4)
+	case "alleq": // every pair equal (the boundary of the inclusive comparisons)
+		out := make([]interface{}, n)
+		for i := range out {
+			out[i] = model.FromInt(t, 3)
+		}
+		return out
 	case "tiny": // values 0..6 whose results are representable in every numeric type (C17)
 		if which == 0 {
 			return gen.SmallInts(t, n, c.Rng, 3, 6)
